@@ -917,9 +917,15 @@ class Calendar(MutableTimeline[Event]):
         )
 
         # All-day only if each occurrence is a whole day of the calendar: one DAY
-        # long and starting at local midnight in the calendar's timezone
-        is_all_day = pattern.duration_seconds == DAY and _infer_is_all_day(
-            series_start_ts, series_end_ts, self._calendar_timezone
+        # long, starting at local midnight in the calendar's timezone, and recurring
+        # on the calendar's own local clock (in another zone later occurrences leave
+        # the calendar's midnights when the two zones change offset on different days)
+        is_all_day = (
+            pattern.duration_seconds == DAY
+            and str(pattern.zone) == str(self._calendar_timezone or timezone.utc)
+            and _infer_is_all_day(
+                series_start_ts, series_end_ts, self._calendar_timezone
+            )
         )
 
         # Convert start timestamp to datetime/date
